@@ -210,32 +210,33 @@ Definition enc_c0 (s : subc05) : option (list N) :=
   i <- pack_B id ;; a <- pack_H' nrl ;; b <- pack_H' rl ;; c <- pack_H' rc ;;
   Some (i ++ [0] ++ a ++ b ++ c ++ body).
 
+Definition dec_c0_body (id : N) (nrl rl rc : nat) (b : list N) : option (subc05 * list N) :=
+  let is_req := Nat.eqb rl 0 && Nat.eqb rc 0 in
+  if id =? 0x20 then r <- dec_repeat rc 4 dec_zone_ctrl1 b ;; Some (C_ZoneCtrl (fst r), snd r)
+  else if id =? 0x21 then
+    if is_req then Some (C_ZoneStatusReq, b)
+    else if Nat.ltb rl 8 then None
+    else r <- dec_repeat rc rl dec_zone_status1 b ;; Some (C_ZoneStatus (fst r), snd r)
+  else if id =? 0x22 then r <- dec_repeat rc 4 dec_ac5_ctrl1 b ;; Some (C_AcCtrl (fst r), snd r)
+  else if id =? 0x23 then
+    if is_req then Some (C_AcStatusReq, b)
+    else if Nat.ltb rl 8 then None
+    else r <- dec_repeat rc rl dec_ac5_status1 b ;; Some (C_AcStatus (fst r), snd r)
+  else if id =? 0x32 then
+    if is_req then None
+    else if Nat.ltb rl 9 then None
+    else r <- dec_repeat rc rl dec_timer5 b ;; Some (C_TimerCtrl (fst r), snd r)
+  else if id =? 0x33 then
+    if is_req then Some (C_TimerStatusReq, b)
+    else if Nat.ltb rl 9 then None
+    else r <- dec_repeat rc rl dec_timer5 b ;; Some (C_TimerStatus (fst r), snd r)
+  else let n := (nrl + rc * rl)%nat in Some (C_Unsupported id (firstn n b), skipn n b).
+
+(* the sub-header "!BxHHH": id, pad, non-repeat length, repeat length, repeat count *)
 Definition dec_c0 (p : list N) : option (subc05 * list N) :=
   match p with
   | id :: _ :: n1 :: n0 :: l1 :: l0 :: c1 :: c0 :: b =>
-    let nrl := N.to_nat (n1 * 256 + n0) in
-    let rl := N.to_nat (l1 * 256 + l0) in
-    let rc := N.to_nat (c1 * 256 + c0) in
-    let is_req := Nat.eqb rl 0 && Nat.eqb rc 0 in
-    if id =? 0x20 then r <- dec_repeat rc 4 dec_zone_ctrl1 b ;; Some (C_ZoneCtrl (fst r), snd r)
-    else if id =? 0x21 then
-      if is_req then Some (C_ZoneStatusReq, b)
-      else if Nat.ltb rl 8 then None
-      else r <- dec_repeat rc rl dec_zone_status1 b ;; Some (C_ZoneStatus (fst r), snd r)
-    else if id =? 0x22 then r <- dec_repeat rc 4 dec_ac5_ctrl1 b ;; Some (C_AcCtrl (fst r), snd r)
-    else if id =? 0x23 then
-      if is_req then Some (C_AcStatusReq, b)
-      else if Nat.ltb rl 8 then None
-      else r <- dec_repeat rc rl dec_ac5_status1 b ;; Some (C_AcStatus (fst r), snd r)
-    else if id =? 0x32 then
-      if is_req then None
-      else if Nat.ltb rl 9 then None
-      else r <- dec_repeat rc rl dec_timer5 b ;; Some (C_TimerCtrl (fst r), snd r)
-    else if id =? 0x33 then
-      if is_req then Some (C_TimerStatusReq, b)
-      else if Nat.ltb rl 9 then None
-      else r <- dec_repeat rc rl dec_timer5 b ;; Some (C_TimerStatus (fst r), snd r)
-    else let n := (nrl + rc * rl)%nat in Some (C_Unsupported id (firstn n b), skipn n b)
+    dec_c0_body id (N.to_nat (n1 * 256 + n0)) (N.to_nat (l1 * 256 + l0)) (N.to_nat (c1 * 256 + c0)) b
   | _ => None
   end.
 
@@ -363,7 +364,7 @@ Definition sub5_size (s : sub1f5) : option nat :=
   | S5_Ability l => Some (26 * length l)%nat
   | S5_AbilityReq All => Some 0%nat
   | S5_AbilityReq (Num _) => Some 1%nat
-  | S5_Names l => Some (fold_left (fun acc e => acc + length (snd e)) l (length l))%nat
+  | S5_Names l => Some (fold_left (fun acc e => acc + length (snd e)) l (2 * length l))%nat
   | S5_NamesReq All => Some 0%nat
   | S5_NamesReq (Num _) => Some 1%nat
   | S5_QuickTimer _ _ _ => Some 4%nat
